@@ -372,6 +372,7 @@ type FuncContract struct {
 	Ensures  []*Clause
 	Invs     []*Clause
 	Applies  []*Clause // lemma/axiom instantiations: Loop 0 = at entry, Loop k = at the start of each iteration of loop k
+	Steps    []*Clause // loop K step E: relation between the start (old(..)) and the end of one iteration
 	Decr     []*Clause
 	Pure     bool // no heap effects
 	Trusted  bool
@@ -580,6 +581,8 @@ func (cs *Contracts) parseLines(pkgPath string, lines, wheres []string) {
 				cur.Invs = append(cur.Invs, cl)
 			case "apply":
 				cur.Applies = append(cur.Applies, cl)
+			case "step":
+				cur.Steps = append(cur.Steps, cl)
 			default:
 				cur.Decr = append(cur.Decr, cl)
 			}
